@@ -635,7 +635,12 @@ def finish(prop, mod, tier, seed, units, results, wall):
         ),
         assumptions=meta.get('assumptions', []),
     )
-    json.dump(ev, open(os.path.join(VERIF, 'evidence', '%s.json' % prop), 'w'), indent=1, default=str)
+    evdir = os.path.join(VERIF, 'evidence')
+    if os.path.realpath(REPO) != '/repo':
+        # runs against a scratch copy of the repository (seeded changes, self-tests) must not overwrite the evidence
+        evdir = os.path.join('/tmp', 'verif_evidence_scratch')
+        os.makedirs(evdir, exist_ok=True)
+    json.dump(ev, open(os.path.join(evdir, '%s.json' % prop), 'w'), indent=1, default=str)
     print('%s tier=%s units=%d paths=%d obligations=%d discharged=%d sat=%d unknown=%d solver=%.1fs wall=%.1fs' % (
         prop, tier, len(results), tot('paths'), tot('obligations'), tot('discharged'),
         sum(len(r['cex']) for r in results), sum(len(r['unknown']) for r in results), tot('solver_s'), wall))
